@@ -17,6 +17,9 @@ CMP = {'memcmp': (0, 1, 2), 'strncmp': (0, 1, 2), 'strncasecmp': (0, 1, 2)}
 STRRECS = ('coap_string_t', 'coap_str_const_t', 'coap_binary_t', 'coap_bin_const_t')
 
 
+FINDERS = set()
+
+
 def _pair_len_ap(x, f, ptrdiff):
     """access path of the length paired with pointer expression x, or None"""
     x = strip(x)
@@ -138,6 +141,7 @@ def run(run, P, only=None, units=None):
         judged = []
         lens = set()
         all_pairs = set()
+        retvars = set(ap(ev['e'].get('e')) for b, ev in P.events(f) if ev['e'].get('k') == 'ret' and ev['e'].get('e') is not None and ap(ev['e'].get('e')) and '->' not in ap(ev['e'].get('e')))
         for b, ev in sites:
             t = ev['e']
             n_ap = ap(t['a'][2])
@@ -201,6 +205,18 @@ def run(run, P, only=None, units=None):
                 rel = env.ts.get('rel', frozenset())
 
                 mine = [_pair_len_ap(t['a'][i], f, ptrdiff) for i in (0, 1)]
+                # (finder) a look-up that RETURNS the element one operand belongs to decides an exact match: both lengths equal the compared length
+                if retvars and all(mine):
+                    owner = [v for v in retvars for i in (0, 1) if (ap(t['a'][i]) or '').startswith(v + '->')]
+                    if owner:
+                        exact = all(n_ap == L or _eq(rel, n_ap, L) for L in mine)
+                        run.oblige('R-CMP-BOUND', exact, '%s:%s:finder-exact' % (name, t['fn']))
+                        FINDERS.add((name, ev['loc']))
+                        if not exact:
+                            run.violation('R-CMP-BOUND', name, ev['loc'], 'finder-matches-prefix',
+                                          '%s() returns the element whose name is compared here, but %s(%s) is reached on a path that does not know BOTH strings to have the compared length '
+                                          '(%s): an element whose name merely begins with the name asked for is returned as the match' %
+                                          (name, t['fn'], short(t)[len(t['fn']) + 1:][:70], ' / '.join(short_len(L) for L in mine)), ctx.path())
                 others = [L2 for L2 in all_pairs if L2 not in mine and L2 != n_ap and _eq(rel, n_ap, L2)]
                 for i in (0, 1):
                     L = mine[i]
